@@ -448,7 +448,7 @@ def pick_config_eval(ctx, rule: str, names: T.List[str]) -> bool:
     prog = ctx.prog
     pk = prog.function("config._pick_config_filepath")
     pad = b"[metadata]\nname = x\n" + b"# filler\n" * 600          # a section far down a long file
-    kinds = {"E": b"", "U": b"[tool.black]\nline-length = 100\n", "F": b"[tool.bumpversion]\ncurrent_version = 1.0.0\n",
+    kinds = {"E": b"", "U": b"[tool.black]\nline-length = 100\n", "F": b"[tool.bumpversion]\ncurrent_version = 1.0.0\n", "H": b"[bumpver]\ncommit = true\n",
              "S": pad + b"[bumpver]\ncurrent_version = \"1.2.3\"\nversion_pattern = \"MAJOR.MINOR.PATCH\"\n"}
 
     class Fobj(Abstract):
@@ -492,7 +492,7 @@ def pick_config_eval(ctx, rule: str, names: T.List[str]) -> bool:
     wrong: T.List[str] = []
     n = 0
     try:
-        for combo in itertools.product((None, "E", "U", "F", "S"), repeat=len(order)):
+        for combo in itertools.product((None, "E", "U", "F", "H", "S"), repeat=len(order)):
             assign = dict(zip(order, combo))
             d = Dir(assign)
             try:
@@ -529,5 +529,5 @@ def pick_config_eval(ctx, rule: str, names: T.List[str]) -> bool:
         return False
     ctx.check(rule, not wrong, f"_pick_config_filepath: first candidate with a bumpver section and current_version, else first existing, else bumpver.toml ({n} directory states evaluated)",
               "config._pick_config_filepath: a file that holds the bumpver configuration is not preferred (or another file is)", "; ".join(wrong[:2]) +
-              " (E empty, U unrelated, F foreign section, S bumpver section far down the file)", loc=pk.loc(), witness={"cases": wrong[:3]})
+              " (E empty, U unrelated, F foreign section, H bumpver header without current_version, S bumpver section far down the file)", loc=pk.loc(), witness={"cases": wrong[:3]})
     return True
